@@ -90,6 +90,7 @@ class Report:
                 backends=backends, solver_seconds=round(secs, 2),
                 functions_under_contract=self.functions,
                 bounded_standins=self.bounded,
+                failing_as_recorded_known_findings=sum(1 for o in self.obligations if o["verdict"] == "known-finding"),
                 known_findings_printed=self.known_printed,
                 undecided=self.undecided, errors=self.errors,
                 samples=self.samples[:12] or [o for o in self.obligations[:5]],
@@ -104,6 +105,8 @@ class Report:
             print("UNDECIDED obligation=%s" % u)
         for e in self.errors:
             print("CHECKER-ERROR %s" % e)
-        print("%s: %d obligations, %d discharged, %d violations, %d undecided, %d errors, %.1fs"
-              % (self.prop, n, discharged, len(self.violations), len(self.undecided), len(self.errors), time.time() - self.t0))
+        nknown = sum(1 for o in self.obligations if o["verdict"] == "known-finding")
+        print("%s: %d obligations, %d discharged%s, %d violations, %d undecided, %d errors, %.1fs"
+              % (self.prop, n, discharged, (", %d failing as recorded known findings" % nknown) if nknown else "", len(self.violations), len(self.undecided),
+                 len(self.errors), time.time() - self.t0))
         return status
